@@ -70,6 +70,10 @@ Inductive dstep : Z -> op1 -> dist -> dist -> Prop :=
 | ds_nested : forall state n limit body d d0 st, exchange d d0 ->
     dloop n limit body d0 (Z.to_nat (Z.max n 1)) 0 0 st ->
     dstep state (ONested n limit body) d [[(0, st)]]
+  (* the same, but the body of every inner round reads the ENCLOSING state [state] *)
+| ds_nestedO : forall state n limit body d d0 st, exchange d d0 ->
+    dloopO state n limit body d0 (Z.to_nat (Z.max n 1)) 0 0 st ->
+    dstep state (ONestedO n limit body) d [[(0, st)]]
 
 with dsteps : Z -> list op1 -> dist -> dist -> Prop :=
 | dss_nil : forall state d, dsteps state [] d d
@@ -87,7 +91,22 @@ with dloop : Z -> Z -> list op1 -> dist -> nat -> Z -> Z -> Z -> Prop :=
 | dl_last : forall n limit body d fuel k st d',
     dsteps st body d d' ->
     ((st + zsum (map snd (flat d')) <? limit) && (k + 1 <? n)) = false ->
-    dloop n limit body d (S fuel) k st (st + zsum (map snd (flat d'))).
+    dloop n limit body d (S fuel) k st (st + zsum (map snd (flat d')))
+
+(** [dloopO outer n limit body d fuel k st result]: as [dloop], but the body of every round
+    runs with the ENCLOSING state [outer] (constant over the inner rounds); the inner running
+    sum [st] only drives the stop condition and the result *)
+with dloopO : Z -> Z -> Z -> list op1 -> dist -> nat -> Z -> Z -> Z -> Prop :=
+| dlo_stop : forall outer n limit body d k st, dloopO outer n limit body d O k st st
+| dlo_continue : forall outer n limit body d fuel k st d' res,
+    dsteps outer body d d' ->
+    ((st + zsum (map snd (flat d')) <? limit) && (k + 1 <? n)) = true ->
+    dloopO outer n limit body d fuel (k + 1) (st + zsum (map snd (flat d'))) res ->
+    dloopO outer n limit body d (S fuel) k st res
+| dlo_last : forall outer n limit body d fuel k st d',
+    dsteps outer body d d' ->
+    ((st + zsum (map snd (flat d')) <? limit) && (k + 1 <? n)) = false ->
+    dloopO outer n limit body d (S fuel) k st (st + zsum (map snd (flat d'))).
 
 (** feedback loop (`iterate`): the body's distributed output is the next round's input *)
 Inductive diter : Z -> Z -> list op1 -> dist -> nat -> Z -> Z -> Z * dist -> Prop :=
